@@ -117,7 +117,9 @@ def _run(case, G, B, start, n_iter=None):
     Gs = np.ldexp(G, 2 * sa).astype(dt)
     Bs = np.ldexp(B, sa + sb).astype(dt)
     l1, l2 = case["p1"] / case["q"] * ms, case["p2"] / case["q"] * 4.0 ** sa
-    st = None if start is None else np.ldexp(np.asarray(start, dtype=np.float64), sb - sa).astype(dt)
+    # integer-typed normal equations (count / incidence data): the data are integers anyway; warm starts stay floating point
+    fdt = dt if dt.kind == "f" else np.dtype("float64")
+    st = None if start is None else np.ldexp(np.asarray(start, dtype=np.float64), sb - sa).astype(fdt)
     solver, variant = case["solver"], case["variant"]
     eps = case.get("ep", 0) / case.get("eq", 1) * xs
     if solver == "hals":
@@ -146,7 +148,7 @@ def _run(case, G, B, start, n_iter=None):
                                                    n_iter_max=n_iter if n_iter is not None else 100)).reshape(n))
         out = np.stack(cols, axis=1)
     elif solver == "admm":
-        x, _, _ = admm(Bs.T.copy(), Gs.copy(), np.zeros((k, n), dtype=dt), np.zeros((k, n), dtype=dt), n_const=None)
+        x, _, _ = admm(Bs.T.copy(), Gs.copy(), np.zeros((k, n), dtype=fdt), np.zeros((k, n), dtype=fdt), n_const=None)
         out = np.asarray(x).T
     else:
         raise ValueError(solver)
@@ -266,9 +268,15 @@ def build_cases(chk, cfgs, thorough):
         """binary exponents (sa, sb) of the change of units of one problem: 40% unscaled, else any of the 16 pairs"""
         return (0, 0) if rng.random() < 0.4 else (rng.choice(MAGS), rng.choice(MAGS))
 
+    def draw_units():
+        """(dtype of UtU / UtM, sa, sb): a quarter of the problems are posed with integer-typed normal equations"""
+        if rng.random() < 0.25:
+            return rng.choice(("int64", "int32")), 0, 0
+        return ("float64",) + draw_mag()
+
     def add_exact(G, p1, p2, q_, cols, variants, exact_mode, batch, pi=0):
         nonlocal n_exact_mode
-        sa, sb = draw_mag()
+        dt, sa, sb = draw_units()
         Gf = np.array(G, dtype=np.float64)
         Bf = np.array(cols, dtype=np.float64).T
         n, k = len(G), len(cols)
@@ -309,7 +317,7 @@ def build_cases(chk, cfgs, thorough):
                 start = make_start(variant, rng, n, k, src)
             c = {"id": "C13/%s-%s/%06d" % (solver, variant, len(cases)), "kind": "exact", "solver": solver, "variant": variant,
                  "mode": mode, "G": [list(r) for r in G], "B": cols, "p1": p1, "p2": p2, "q": q_, "start": start, "flags": flags,
-                 "sa": sa, "sb": sb, "dt": "float64"}
+                 "sa": sa, "sb": sb, "dt": dt}
             c.update(opt)
             cases.append(c)
 
@@ -335,7 +343,7 @@ def build_cases(chk, cfgs, thorough):
         if t % 3 == 2:              # single precision, design in small units (squared column norms below float32 eps) or not
             dt, (sa, sb) = "float32", (rng.choice((-15, -15, 0)), rng.choice((-15, 0)))
         else:
-            dt, (sa, sb) = "float64", draw_mag()
+            dt, sa, sb = draw_units()
         Gm, Bm, _ = gen_problem({"gen_seed": gs, "n": n, "k": k, "cond_max": 60.0})
         kflags = {"ls_nonpos": bool(np.all(np.linalg.solve(Gm, Bm) <= 0)), "batch": "cheap" if cheap else "main", "signed": True}
         # solution-like start of another problem: clipped least-squares solution for the reversed, negated right-hand sides
@@ -410,6 +418,7 @@ def run(chk, opts):
         "magnitude: problems are also posed in other units (design * 2^a, data * 2^b, a, b in {-40,-20,0,30}; float32 with a = -15 in the measured tier); "
         "options that are absolute by documentation (fista/hals epsilon, active_set tol) are scaled with the units -- the documented absolute defaults "
         "(fista epsilon=1e-8 floor, active_set tol=1e-7 on the gradient) are NOT exercised in small units",
+        "dtype: a quarter of the problems pass int64 / int32 UtU and UtM (with floating-point warm starts); float32 in the measured tier",
         "options: hals nonzero_rows=True (no all-zero row unless the solution is zero), epsilon=1/2 for hals and fista (minimiser over x >= epsilon); "
         "chained starts: output of a truncated run of the same solver, exact minimiser restricted to a random support",
         "warm starts: ones, two other all-positive scales, two random partial-support draws, the solution of a different problem (active set: all; fista: a subset; hals: ones and the solution)",
